@@ -128,7 +128,7 @@ struct Explorer {
 
 int main(int argc, char **argv) {
   vf::Opts o = vf::parseOpts(argc, argv);
-  bool th = o.thorough();
+  bool th = o.thorough() && o.pass != "san";  // the secondary sanitizer pass of the thorough tier uses the quick alphabet
   vf::Check<Inst> c;
   c.property = "C12";
   c.level = "model_checking";
